@@ -44,3 +44,7 @@ def lemmas(eng):
     hyp = [t > 0, t < 2 ** 40, 100000 * a > t, q * z3.ToReal(t) == z3.ToReal(a)]
     return [Obligation("lemma:C19::fdiv-gap", "lemma:C19", "lemma", hyp, q >= gap, 0,
                        "0 < t < 2^40 and 100000*a > t and q*t == a  ==>  q >= 1/100000 + 1/(100000*2^40)")]
+
+# bounded stand-in for the percentage function: quality_profile is replaced by enumerated profiles
+BOUNDED_STUBS = {"codelimit.common.report.Report:Report.quality_profile_percentage":
+                 {"codelimit.common.report.Report:Report.quality_profile": "profiles"}}
